@@ -89,6 +89,27 @@ def uncached_iteration_mats(rel):
     return out
 
 
+def process_reachable_mats(rel):
+    """Materialization nodes without payload that Processor._process_recursive will reach (it stops at nodes
+    that already carry a payload and does not descend below a statically trivial Transfer)."""
+    out = []
+    stack = [rel]
+    seen = set()
+    while stack:
+        r = stack.pop()
+        if id(r) in seen:
+            continue
+        seen.add(id(r))
+        if r.payload is not None:
+            continue
+        if isinstance(r, Transfer) and (r.is_join_identity or r.max_rows == 0):
+            continue
+        if isinstance(r, Materialization):
+            out.append(r)
+        stack.extend(children(r))
+    return out
+
+
 class ExtraOps:
     def check_cached(self, ent, mats):
         for m in mats:
@@ -147,6 +168,7 @@ class ExtraOps:
         ncalls = len(w.processor.calls)
         allowed = live_leaf_ids(rel)
         starts0 = self.leaf_starts()
+        expected_mats = process_reachable_mats(rel)
         self.stats["process_ops"] += 1
         out = None
         err = None
@@ -182,6 +204,13 @@ class ExtraOps:
             return self.alias(op, t, "process-failed")
         if w.fault.fired:
             self.stats["fault_swallowed_or_late"] += 1
+        # every materialization process() walked through must now hold its payload (else it is evaluated again next time)
+        for m in expected_mats:
+            if m.payload is None:
+                self.violate("payload_not_cached", {"materialization": m.name,
+                                                    "why": "process() succeeded but left this materialization without a payload"},
+                             entry=t)
+                break
         if sorted(c.qualified_name for c in out.columns) != sorted(c.qualified_name for c in rel.columns) or \
                 out.engine is not rel.engine:
             self.violate("process_changed_signature", {"in": str(rel)[:150], "out": str(out)[:150]}, entry=t)
